@@ -52,12 +52,19 @@ func showCalls(calls []lib.StoreCall) string {
 func checkC13(c *c13Case) (msg string, nontrivial bool, labels []string, ncalls int) {
 	q := c.Stmt.Render()
 	c.Query = q
-	in := lib.NewInstr(lib.NewStore(c.Pairs))
+	base := lib.NewStore(c.Pairs)
+	base.Shared = true // the slices it hands out stay its own: reading must not write into them
+	in := lib.NewInstr(base)
 	in.FailAt = c.FailAt
 	cfg := lib.Cfg{Mode: c.Mode, Batch: c.Batch, Cache: true}
 	res := lib.Run(q, in, len(c.Pairs), cfg)
 	calls := in.Calls()
 	ncalls = len(calls)
+	if c.Stmt.Kind == "select" {
+		if m := base.MemoryIntact(); m != "" {
+			return fmt.Sprintf("SELECT %q [%s] wrote into memory of the storage: %s", q, cfg, m), true, labels, ncalls
+		}
+	}
 	if res.Panic != "" || res.StepCap {
 		return fmt.Sprintf("statement %q over %v [%s, fault at call %d]: %s", q, c.Pairs, cfg, c.FailAt, res.Describe()), false, labels, ncalls
 	}
